@@ -323,3 +323,10 @@ V("probe-handler-narrowed", "C02", "pyteal/ast/abi/type.py", "            declar
 V("allocator-limit-counts-auto-only", "C04", "pyteal/compiler/scratchslots.py", "    if len(allSlots) > NUM_SLOTS:", "    if len(allSlots) - len(slotIds) > NUM_SLOTS:", "R10.1")
 V("itxn-extra-fields-set-order", "C11", "pyteal/ast/itxn.py", "            InnerTxnBuilder.SetFields({} if extra_fields is None else extra_fields),", "            InnerTxnBuilder.SetFields({} if extra_fields is None else {k: extra_fields[k] for k in extra_fields.keys() - {TxnField.type_enum}}),", "R11.4")
 V("flatten-fresh-label-each-call", "C04", "pyteal/compiler/flatten.py", "        return labelRefs[index]", "        return LabelReference(\"l{}\".format(index))", "R01.4e")
+V("deferred-only-first-retsub", "C01", "pyteal/compiler/compiler.py", "                for prev in deferred_start.incoming:\n                    prev.replaceOutgoing(block, deferred_start)\n", "                for prev in deferred_start.incoming:\n                    prev.replaceOutgoing(block, deferred_start)\n                break\n", "R01.14")
+V("deferred-start-not-replaced", "C01", "pyteal/compiler/compiler.py", "                if block is start:\n                    # this is the start block, replace start\n                    start = deferred_start", "                if block is start and False:\n                    # this is the start block, replace start\n                    start = deferred_start", "R01.14")
+V("deferred-built-once", "C01", "pyteal/compiler/compiler.py", "        if deferred_expr := decl.deferred_expr:\n            # this represents code that should be inserted before each retsub op\n            for block in TealBlock.Iterate(start):", "        if deferred_expr := decl.deferred_expr:\n            deferred_pair = deferred_expr.__teal__(options)\n            # this represents code that should be inserted before each retsub op\n            for block in TealBlock.Iterate(start):", None, "quiet")
+V("return-value-dropped", "C01", "pyteal/compiler/compiler.py", "            ret_expr = Return(ast)  # T2PT3", "            ret_expr = Return()  # T2PT3", "R01.1")
+V("new-subroutines-skip-known", "C01", "pyteal/compiler/compiler.py", "    newSubroutines = referencedSubroutines - subroutine_start_blocks.keys()", "    newSubroutines = referencedSubroutines - subroutine_start_blocks.keys() - set(subroutineGraph.keys())", None, "quiet")
+V("call-graph-not-recorded", "C01", "pyteal/compiler/compiler.py", "    if currentSubroutine is not None:\n        subroutineGraph[currentSubroutine] = referencedSubroutines", "    if currentSubroutine is not None and referencedSubroutines:\n        subroutineGraph[currentSubroutine] = referencedSubroutines", "R01.14")
+V("twin-compile-subroutine-rename", "C01", "pyteal/compiler/compiler.py", "    newSubroutines = referencedSubroutines - subroutine_start_blocks.keys()\n    for subroutine in sorted(newSubroutines, key=lambda subroutine: subroutine.id):", "    pending = referencedSubroutines - subroutine_start_blocks.keys()\n    for subroutine in sorted(pending, key=lambda subroutine: subroutine.id):", None, "quiet")
